@@ -18,7 +18,7 @@ CLAIMED = {
     "C02": ("static path rules (dominance by error edges, typestate of the in-flight chunk, holder enumeration from types) over SSA",
             "On every path of the client's functions: the delivered-callback follows a successful ACK read of the same iteration and receives the chunk designated by that ACK; "
             "chunks are queued for ACK only after a nil-error send; the in-flight chunk is remembered until queued; collectLeftovers merges every chunk-holding field (enumerated from the struct type); "
-            "session results always come from collectLeftovers; leftovers reach the leftover callback before OnFinished; I/O errors abort the connection; leftovers and new input are never offered in one select and leftovers are tried first; an ACK without a chunk id only comes from a connection that confirms synchronously (sibling rule over the ReadChunkAck implementations). Interleavings themselves are not explored.", "§4 C02"),
+            "session results always come from collectLeftovers (directly or through a private wrapper of it), and on every way from the recovery stage to collectLeftovers its first argument is that stage's own leftovers channel; leftovers reach the leftover callback before OnFinished; I/O errors abort the connection; leftovers and new input are never offered in one select and leftovers are tried first; an ACK without a chunk id only comes from a connection that confirms synchronously (sibling rule over the ReadChunkAck implementations). Interleavings themselves are not explored.", "§4 C02"),
 }
 
 CLAIMED.update({
@@ -33,7 +33,7 @@ CLAIMED.update({
 
 CLAIMED.update({
     "C05": ("static who-may-send/receive/launch analysis, dominance of sort over fill, lock-held dataflow, who-may-write LogChunk.ID",
-            "The structural carriers of ordering: each FIFO on the path has one producer role and one consumer goroutine, a flush sends one copy taken before truncation, every leftovers channel is built by the sort-then-fill-with-dedup constructor, "
+            "The structural carriers of ordering: each FIFO on the path has one producer role and one consumer goroutine, a flush sends a batch that is never refilled (a fresh copy taken before truncation, or the pending slice handed over and replaced by a newly made one), every leftovers channel is built by the sort-then-fill-with-dedup constructor, "
             "resend precedes new input, recovery is sorted and precedes feeder/worker start, chunk ids only come from the generator (counters under its mutex, fixed-width format). Wall-clock monotonicity and the interleavings are not decided.", "§4 C05"),
     "C09": ("static exactly-once path enumeration and must-pass (cleaner between cut and store) over SSA; index safety by the C07 engine",
             "Accounting and truncation clauses of the parser on every path: one of pass/drop per message after RawLength is set, nil exactly on drop paths with one release, overflow counted and UTF-8 clean-up on every path that cuts the message, "
@@ -46,14 +46,14 @@ CLAIMED.update({
 CLAIMED.update({
     "C17": ("static lock-held must-dataflow (guarded-by), must-precede ordering incl. LIFO of defers, who-may-write",
             "Lock discipline and ordering of the reload machinery on all paths: every access to downstream / slots / addresses every dereference of a sink's slot pointer and every call on a sink value taken from a slot is under the RB-mutex (writes of downstream under the write lock); "
-            "reload validates before locking, fails without side effects, and under the lock closes sinks, shuts down, renews, re-creates sinks; the loader is swapped only in the completion closure handed out after parse+compatibility succeeded; "
+            "reload validates before locking, fails without side effects (what it changed in the wrapper before the new configuration was known to be good — a state flag, a marker — is changed back on every path of the failure branch), and under the lock closes sinks, shuts down, renews, re-creates sinks; the loader is swapped only in the completion closure handed out after parse+compatibility succeeded; "
             "a connection's sink is closed before its descriptor (slot index) is released (closer signal or direct Close); element addresses kept by sinks refer to a container that never moves; the client number given to NewSink is the connection's socket descriptor (unique in the process), not a per-listener number. The interleavings themselves are not explored (not a linearizability argument).", "§4 C17"),
 })
 
 CLAIMED.update({
     "C18": ("static enumeration of blocking primitives with bounded-by rules (timer/stop-signal select cases, receive-until-closed, timeouts, deadlines) and a reviewed table; must-precede and signal-once path rules",
             "Every blocking primitive in production functions is bounded by rule or by a reviewed-table entry that states what bounds it (listed as 'assumed' obligations); the stop signal is wired to the active session's abort; "
-            "connection I/O runs only after a non-zero deadline was applied; the bufferer closes and signals before its timed wait; listener and connections are closed on stop; no Signal/close can run twice on a path. The numeric bound is not decided.", "§4 C18"),
+            "connection I/O runs only after a non-zero deadline was applied; the bufferer closes and signals before its timed wait; listener and connections are closed on stop; a timeout case on a channel handed in by the caller counts only if every call site passes a time.After made for that call (a timer channel fires once); no Signal/close can run twice on a path. The numeric bound is not decided.", "§4 C18"),
 })
 
 CLAIMED.update({
